@@ -23,6 +23,8 @@ def dedup (l : List Tok) : List Tok := l.foldl (fun acc c => if acc.contains c t
 is self-contained: any two of them juxtaposed segment into exactly themselves -/
 def stableVocab (strs : List (List Int)) : Bool :=
   let cs := dedup ((strs.flatMap toks) ++ [[0x20], [0x2D], [0x41]])
+  -- a cluster that is not whitespace must not hide a whitespace code point (e.g. Prepend + space)
+  (cs.all fun c => tkA.ws c || c.all fun r => !isSpaceRune r) &&
   cs.all fun c1 => cs.all fun c2 => toks (c1 ++ c2) == [c1, c2]
 
 /-- separator occurrences found on code points coincide with occurrences found on clusters -/
